@@ -304,6 +304,12 @@ Proof.
   intros [-> | [-> | [-> | ->]]]; unfold is_marker; destruct (B =? 10), (B =? 2), hex, (B =? 8), (B =? 16); reflexivity.
 Qed.
 
+Ltac use_frac Fr :=
+  match type of Fr with _ = ?R =>
+    match goal with |- context [rbind (if negb (len ?run =? 0) then ?T else Ok (0, 0)) _] =>
+      replace (if negb (len run =? 0) then T else Ok (0, 0)) with R by (symmetry; exact Fr)
+    end end.
+
 (** the body of the number (everything before the scale marker), as the implementation reads it *)
 Lemma parse_body_complete (B : Z) (hex hp pm : bool) (scv : Z) (pre run1 ids dot run2 fds : list Z) :
   radix_valid B = true ->
@@ -407,16 +413,16 @@ Proof.
     + subst hex B pre hp. cbn [app].
       assert (L2 : (len (48 :: x :: run1) =? 0) = false).
       { rewrite !len_cons. pose proof (len_nonneg run1). destruct (Z.eqb_spec (len run1 + 1 + 1) 0); [lia | reflexivity]. }
-      rewrite L2. cbn [negb Z.eqb Pos.eqb andb skipn].
-      pose proof (Frac 16 eq_refl eq_refl) as Fr. cbn [Z.eqb Pos.eqb andb] in Fr.
+      rewrite L2. rewrite (Z.eqb_refl 2). cbn [negb andb skipn].
+      pose proof (Frac 16 eq_refl eq_refl) as Fr.
       destruct (Z.eqb_spec (len run1) 0) as [E0|E0].
-      * rewrite (N1 (Lz _ E0)) in *. cbn [rbind]. rewrite Fr. cbn [rbind].
+      * rewrite (N1 (Lz _ E0)) in *. cbn [rbind]. use_frac Fr. cbn [rbind].
         rewrite (Lz _ E0). cbn [len length Z.of_nat count_us filter]. 
         destruct (Fin 0 eq_refl) as (sf & ex & E & V). cbn [len length Z.of_nat] in E. rewrite Z.mul_0_r in E.
         cbn [Z.mul Z.sub Z.add]. eexists _, _. split; [exact E | exact V].
       * assert (Hids : ids <> []) by (destruct O1 as [->|]; [cbn in E0; lia | assumption]).
         rewrite (parse_unsigned_run 16 run1 ids eq_refl F1 Bd1 Hids). cbn [rbind].
-        rewrite Fr. cbn [rbind]. rewrite C1.
+        use_frac Fr. cbn [rbind]. rewrite C1.
         replace (4 * (len run1 - (len run1 - len ids))) with (per * len ids) by (unfold per; lia).
         apply (Fin _ eq_refl).
     + subst hex pre. cbn [app].
@@ -424,14 +430,259 @@ Proof.
       { intros base ->. destruct (Z.eqb_spec B 2); [subst; reflexivity | reflexivity]. }
       assert (X : (B =? 2) && hp = false) by (destruct (Z.eqb_spec B 2); [rewrite (Ehp e); reflexivity | reflexivity]).
       destruct Pm as [->|]; [|discriminate].
+      pose proof (Frac B eq_refl (Ef B eq_refl)) as Fr.
       destruct (Z.eqb_spec (len run1) 0) as [E0|E0]; cbn [negb].
-      * rewrite (N1 (Lz _ E0)) in *. cbn [rbind]. rewrite (Frac B eq_refl (Ef B eq_refl)). cbn [rbind].
+      * rewrite (N1 (Lz _ E0)) in *. cbn [rbind]. use_frac Fr. cbn [rbind].
         destruct (Fin 0 eq_refl) as (sf & ex & E & V). cbn [len length Z.of_nat] in E. rewrite Z.mul_0_r in E.
         cbn [Z.add]. eexists _, _. split; [exact E | exact V].
       * assert (Hids : ids <> []) by (destruct O1 as [->|]; [cbn in E0; lia | assumption]).
         rewrite X, andb_false_r. cbn [andb].
         rewrite (parse_unsigned_run B run1 ids HB F1 Bd1 Hids). cbn [rbind].
-        rewrite (Frac B eq_refl (Ef B eq_refl)). cbn [rbind]. rewrite C1.
+        use_frac Fr. cbn [rbind]. rewrite C1.
         replace (len run1 - (len run1 - len ids)) with (per * len ids) by (unfold per; lia).
         apply (Fin _ eq_refl).
 Qed.
+
+(** ** Every text of the documented grammar is parsed to exactly the written value, with the number of
+    written digits as precision.  [parse_spec] is the grammar read from left to right. *)
+Theorem parse_asis_complete B s v : radix_valid B = true -> parse_spec B s = Some v -> parse_asis B s = Ok v.
+Proof.
+  intros HB H.
+  assert (HB2 : 2 <= B) by (unfold radix_valid in HB; apply andb_true_iff in HB; destruct HB as [X _]; apply Z.leb_le in X; exact X).
+  unfold parse_spec in H. unfold parse_asis.
+  destruct (strip_float_sign s) as [sg s1].
+  destruct (strip_hex_prefix B s1) as [hex s2] eqn:HP.
+  set (r := if hex then 16 else B) in *. set (per := if hex then 4 else 1) in *.
+  destruct (span_run r s2) as [[ids ni] s3] eqn:S1.
+  destruct (span_run_spec r s2 ids ni s3 S1) as (run1 & E1 & F1 & Bd1 & L1 & C1 & R1).
+  assert (Dot : exists dot run2 fds nf s4,
+     (match s3 with c :: t => if c =? 46 then span_run r t else ([], 0, s3) | [] => ([], 0, s3) end) = (fds, nf, s4) /\
+     s3 = dot ++ s4 /\ forallb (runb r) run2 = true /\ body_digits r run2 = Some fds /\ len run2 = nf /\
+     count_us run2 = nf - len fds /\ ((dot = [] /\ run2 = []) \/ dot = 46 :: run2)).
+  { destruct s3 as [|c t].
+    - exists [], [], [], 0, []. repeat split; auto.
+    - destruct (Z.eqb_spec c 46) as [->|N].
+      + destruct (span_run r t) as [[fds nf] s4] eqn:S2.
+        destruct (span_run_spec r t fds nf s4 S2) as (run2 & E2 & F2 & Bd2 & L2 & C2 & R2).
+        exists (46 :: run2), run2, fds, nf, s4. repeat split; auto. cbn [app]. f_equal. exact E2.
+      + exists [], [], [], 0, (c :: t). repeat split; auto. }
+  destruct Dot as (dot & run2 & fds & nf & s4 & EDot & E3 & F2 & Bd2 & L2 & C2 & Hdot).
+  rewrite EDot in H. cbv zeta in H.
+  destruct (match s4 with [] => Some 0 | c :: t => if is_marker B hex c then parse_scale t else None end) as [sc|] eqn:ESc; [|discriminate].
+  destruct (((ni =? 0) || negb (len ids =? 0)) && ((nf =? 0) || negb (len fds =? 0)) && negb (len ids + len fds =? 0)) eqn:RO; [|discriminate].
+  apply andb_true_iff in RO. destruct RO as [RO RO3]. apply andb_true_iff in RO. destruct RO as [RO1 RO2].
+  assert (Lz : forall (l : list Z), len l = 0 -> l = []) by (intros [|a l] X; [reflexivity | rewrite len_cons in X; pose proof (len_nonneg l); lia]).
+  assert (NZ : forall (l : list Z), negb (len l =? 0) = true -> l <> []).
+  { intros l X -> . cbn in X. discriminate. }
+  assert (O1 : run1 = [] \/ ids <> []).
+  { apply orb_true_iff in RO1. destruct RO1 as [X|X]; [left; apply Lz; apply Z.eqb_eq in X; lia | right; apply NZ; exact X]. }
+  assert (O2 : run2 = [] \/ fds <> []).
+  { apply orb_true_iff in RO2. destruct RO2 as [X|X]; [left; apply Lz; apply Z.eqb_eq in X; lia | right; apply NZ; exact X]. }
+  assert (O3 : ids <> [] \/ fds <> []).
+  { destruct ids as [|a ids]; [|left; discriminate]. destruct fds as [|b fds]; [cbn in RO3; discriminate | right; discriminate]. }
+  (* the prefix *)
+  assert (Pre : exists pre, s1 = pre ++ s2 /\
+     ((hex = true /\ B = 2 /\ has_hex_prefix s1 = true /\ exists x, (x = 120 \/ x = 88) /\ pre = [48; x]) \/
+      (hex = false /\ pre = [] /\ (B = 2 -> has_hex_prefix s1 = false)))).
+  { destruct (strip_hex_prefix_cases B s1 hex s2 HP) as [(Eh & EB & (x & Es1) & Ehp)|(Eh & Es2 & Ehp)].
+    - exists [48; x]. split; [exact Es1|]. left. repeat split; auto. exists x. split; [|reflexivity].
+      rewrite Es1, has_hex_prefix_cons2 in Ehp. cbn [Z.eqb Pos.eqb andb] in Ehp. apply orb_true_iff in Ehp.
+      destruct Ehp as [X|X]; apply Z.eqb_eq in X; auto.
+    - exists []. split; [symmetry; exact Es2|]. right. repeat split; auto. }
+  destruct Pre as (pre & Es1 & Hpre).
+  set (hp := has_hex_prefix s1) in *.
+  assert (Hhex2 : hex = true -> B = 2) by (intros X; destruct Hpre as [(_ & EB & _)|(Eh & _)]; [exact EB | congruence]).
+  assert (MF : forall c, marker_set B hp c = is_marker B hex c).
+  { intros c. unfold marker_set. destruct Hpre as [(Eh & EB & Ehp & _)|(Eh & _ & Ehp)].
+    - rewrite Ehp, Eh. reflexivity.
+    - rewrite Eh. destruct (Z.eq_dec B 2) as [EB|NB]; [rewrite (Ehp EB); reflexivity | apply is_marker_flag; exact NB]. }
+  set (body := pre ++ run1 ++ dot).
+  assert (Ebody : s1 = body ++ s4) by (unfold body; rewrite Es1, E1, E3, <- !app_assoc; reflexivity).
+  assert (NoM : forallb (fun c => negb (marker_set B hp c)) body = true).
+  { assert (RunNM : forall run, forallb (runb r) run = true -> forallb (fun c => negb (marker_set B hp c)) run = true).
+    { intros run. apply forallb_impl'. intros c Hc. rewrite MF, (run_not_marker B hex c Hhex2 Hc). reflexivity. }
+    unfold body. apply forallb_app'; [|apply forallb_app'; [apply RunNM; exact F1|]].
+    - destruct Hpre as [(_ & _ & _ & x & Hx & ->)|(_ & -> & _)]; [|reflexivity].
+      cbn [forallb]. rewrite !MF, (not_marker_x B hex 48), (not_marker_x B hex x) by tauto. reflexivity.
+    - destruct Hdot as [[-> _]| ->]; [reflexivity|]. cbn [forallb]. rewrite MF, (not_marker_x B hex 46) by tauto.
+      cbn [negb andb]. apply RunNM; exact F2. }
+  assert (Hhp2 : B = 2 -> has_hex_prefix (pre ++ run1) = hex).
+  { intros EB. destruct Hpre as [(Eh & _ & _ & x & Hx & ->)|(Eh & -> & Ehp)].
+    - rewrite Eh. cbn [app]. rewrite has_hex_prefix_cons2. destruct Hx as [-> | ->]; reflexivity.
+    - rewrite Eh. cbn [app]. apply (has_hex_prefix_app run1 s3). rewrite <- E1.
+      specialize (Ehp EB). unfold hp in Ehp. rewrite Es1 in Ehp. exact Ehp. }
+  assert (Hpre' : (hex = true /\ B = 2 /\ hp = true /\ exists x, (x = 120 \/ x = 88) /\ pre = [48; x]) \/
+                  (hex = false /\ pre = [] /\ (B = 2 -> hp = false))) by exact Hpre.
+  (* the scale *)
+  assert (Scale : exists pm,
+    (match rsplit (marker_set B hp) s1 with
+     | Some (before, mk, after) => rbind (isize_from_str after) (fun v => Ok (v, (B =? 2) && ((mk =? 112) || (mk =? 80)), before))
+     | None => Ok (0, false, s1)
+     end) = Ok (sc, pm, body) /\ (pm = true -> hex = true)).
+  { destruct s4 as [|mk sct].
+    - inversion ESc; subst sc. exists false. rewrite Ebody, app_nil_r, (rsplit_none _ _ NoM). split; [reflexivity | discriminate].
+    - destruct (is_marker B hex mk) eqn:M; [|discriminate].
+      exists ((B =? 2) && ((mk =? 112) || (mk =? 80))).
+      rewrite Ebody, (rsplit_last (marker_set B hp) body mk sct).
+      + rewrite (isize_from_str_scale sct sc ESc). cbn [rbind]. split; [reflexivity|].
+        intros X. apply andb_true_iff in X. destruct X as [X1 X2]. apply Z.eqb_eq in X1. subst B.
+        destruct hex; [reflexivity|]. exfalso. unfold is_marker in M. cbn [Z.eqb Pos.eqb] in M.
+        apply orb_true_iff in X2. destruct X2 as [X2|X2]; apply Z.eqb_eq in X2; subst mk; cbn in M; discriminate.
+      + rewrite MF. exact M.
+      + apply (forallb_impl' (fun c => negb (is_marker B hex c))); [intros c X; rewrite MF; exact X|].
+        apply (scale_no_marker B hex sct sc ESc). }
+  destruct Scale as (pm & -> & Hpm). cbn [rbind].
+  subst ni nf.
+  destruct (parse_body_complete B hex hp pm sc pre run1 ids dot run2 fds HB Hpre' Hhp2 Hpm F1 Bd1 C1 F2 Bd2 C2 Hdot O1 O2 O3)
+    as (signif & expo & EB & V).
+  fold body in EB. rewrite EB. cbn [rbind].
+  rewrite (final_step B (sg * signif) expo _ HB2), V.
+  fold r per in H |- *.
+  destruct (normalize B (sg * digits_value r (ids ++ fds)) (sc - per * len fds)) as [a b].
+  destruct (in_isize b); [inversion H; reflexivity | discriminate].
+Qed.
+
+(* ---------------------------------------------------------------- print, then parse *)
+Section RoundTrip.
+Variable B : Z.
+Hypothesis HB : 2 <= B <= 36.
+Let HB2 : 2 <= B := proj1 HB.
+
+Lemma digit_char_inv d : 0 <= d < B ->
+  digit_from_ascii B (digit_char false d) = Some d /\ digit_char false d <> 95 /\ digit_char false d <> 46 /\
+  digit_char false d <> 45 /\ digit_char false d <> 43 /\ (B = 2 -> digit_char false d <> 120 /\ digit_char false d <> 88).
+Proof.
+  intros Hd. unfold digit_char, digit_from_ascii, digit_of_char. destruct (Z.ltb_spec d 10).
+  - destruct (Z.leb_spec 48 (48 + d)); [|lia]. destruct (Z.leb_spec (48 + d) 57); [|lia]. cbn [andb].
+    replace (48 + d - 48) with d by lia. destruct (Z.ltb_spec d B); [|lia]. repeat split; lia.
+  - destruct (Z.leb_spec 48 (87 + d)); [|lia]. destruct (Z.leb_spec (87 + d) 57); [lia|]. cbn [andb].
+    destruct (Z.leb_spec 97 (87 + d)); [|lia]. destruct (Z.leb_spec (87 + d) 122); [|lia]. cbn [andb].
+    replace (87 + d - 87) with d by lia. destruct (Z.ltb_spec d B); [|lia]. repeat split; lia.
+Qed.
+
+Lemma span_run_digits ds rest : in_range B ds -> (match rest with [] => True | c :: _ => runb B c = false end) ->
+  span_run B (map (digit_char false) ds ++ rest) = (ds, len ds, rest).
+Proof.
+  induction ds as [|a ds IH]; cbn [map app]; intros Hin Hr.
+  - destruct rest as [|c t]; [reflexivity|]. cbn [span_run]. unfold runb in Hr. apply orb_false_iff in Hr.
+    destruct Hr as [H1 H2]. rewrite H1. destruct (digit_from_ascii B c); [discriminate | reflexivity].
+  - inversion Hin as [|? ? Ha Hds]; subst. cbn [span_run]. destruct (digit_char_inv a Ha) as (D & N95 & _).
+    destruct (Z.eqb_spec (digit_char false a) 95); [contradiction|]. rewrite D, (IH Hds Hr), len_cons. reflexivity.
+Qed.
+
+Lemma strip_float_sign_other c t : c <> 45 -> c <> 43 -> strip_float_sign (c :: t) = (1, c :: t).
+Proof.
+  intros H1 H2. unfold strip_float_sign. destruct c as [|p|p]; try reflexivity.
+  repeat (destruct p as [p|p|]; try reflexivity); lia.
+Qed.
+
+(** number of digits the printed text shows *)
+Definition printed_digits (s e : Z) : Z :=
+  if 0 <=? e then len (digits_spec B (Z.abs s * B ^ e))
+  else len (digits_spec B (Z.abs s / B ^ (- e))) + (- e).
+
+(** Display without options, read back by the grammar: the same float; the precision is the number
+    of printed digits.  Floats are normalised (Repr::new): zero is (0, 0), otherwise no trailing zero digit. *)
+Theorem display_parse_roundtrip_spec m s e : (s mod B <> 0 \/ (s = 0 /\ e = 0)) -> in_isize e = true ->
+  parse_spec B ((if s <? 0 then [45] else []) ++ display_body_spec B m s e None) = Some (s, e, printed_digits s e).
+Proof.
+  intros Hn Hie.
+  pose proof (fun k H => Bpow_pos B HB2 k H) as pw.
+  assert (Hz : s = 0 -> e = 0) by (intros X; destruct Hn as [Y|[_ Y]]; [rewrite X, Z.mod_0_l in Y by lia; contradiction | exact Y]).
+  (* the body as digit lists *)
+  set (ex := - e).
+  assert (Body : exists ids fds, display_body_spec B m s e None =
+                   map (digit_char false) ids ++ (if 0 <=? e then [] else 46 :: map (digit_char false) fds) /\
+                 in_range B ids /\ in_range B fds /\ ids <> [] /\ (0 <=? e = true -> fds = []) /\ (0 <=? e = false -> len fds = ex) /\
+                 digits_value B (ids ++ fds) = (if 0 <=? e then Z.abs s * B ^ e else Z.abs s) /\
+                 len ids + len fds = printed_digits s e).
+  { unfold display_body_spec, printed_digits. destruct (Z.leb_spec 0 e) as [He|He].
+    - exists (digits_spec B (Z.abs s * B ^ e)), []. pose proof (pw e He).
+      assert (0 <= Z.abs s * B ^ e) by nia.
+      rewrite !app_nil_r. repeat split; auto.
+      + apply digits_spec_range; lia.
+      + constructor.
+      + apply digits_spec_nonempty; lia.
+      + discriminate.
+      + apply digits_spec_value; lia.
+      + cbn [len length Z.of_nat]. lia.
+    - unfold fixed_text. destruct (Z.eqb_spec (- e) 0); [lia|]. fold ex.
+      pose proof (pw ex ltac:(unfold ex; lia)) as Hp.
+      exists (digits_spec B (Z.abs s / B ^ ex)), (digits_pad (Z.to_nat ex) B (Z.abs s mod B ^ ex)).
+      assert (0 <= Z.abs s / B ^ ex) by (apply Z.div_pos; lia).
+      pose proof (Z.mod_pos_bound (Z.abs s) (B ^ ex) Hp) as Hm.
+      repeat split; auto.
+      + apply digits_spec_range; lia.
+      + apply digits_pad_range; lia.
+      + apply digits_spec_nonempty; lia.
+      + discriminate.
+      + intros _. rewrite digits_pad_len. unfold ex. lia.
+      + rewrite value_app, digits_spec_value, digits_pad_value, digits_pad_len by lia.
+        rewrite Z2Nat.id by (unfold ex; lia). rewrite Z.mod_mod by lia.
+        pose proof (Z.div_mod (Z.abs s) (B ^ ex) ltac:(lia)). lia.
+      + rewrite digits_pad_len. rewrite Z2Nat.id by (unfold ex; lia). reflexivity. }
+  destruct Body as (ids & fds & EBody & Rids & Rfds & Nids & Fnil & Flen & Val & Nd).
+  rewrite EBody.
+  destruct ids as [|i0 ids']; [contradiction|].
+  inversion Rids as [|? ? Hi0 Rids']; subst.
+  destruct (digit_char_inv i0 Hi0) as (D0 & N95 & N46 & N45 & N43 & NX).
+  set (body := map (digit_char false) (i0 :: ids') ++ (if 0 <=? e then [] else 46 :: map (digit_char false) fds)).
+  (* sign *)
+  assert (Sg : strip_float_sign ((if s <? 0 then [45] else []) ++ body) = ((if s <? 0 then -1 else 1), body)).
+  { destruct (s <? 0); cbn [app]; [reflexivity|]. unfold body. cbn [map app]. apply strip_float_sign_other; assumption. }
+  unfold parse_spec. rewrite Sg.
+  (* no hexadecimal prefix *)
+  assert (Hx : strip_hex_prefix B body = (false, body)).
+  { unfold strip_hex_prefix. destruct (Z.eqb_spec B 2) as [EB|]; [|reflexivity].
+    unfold body. cbn [map app]. destruct ids' as [|i1 ids''].
+    - cbn [map app]. destruct (0 <=? e); [reflexivity|]. cbn [Z.eqb Pos.eqb orb]. rewrite andb_false_r. reflexivity.
+    - cbn [map app]. pose proof (Forall_inv Rids') as Hi1. cbv beta in Hi1.
+      destruct (digit_char_inv i1 Hi1) as (_ & _ & _ & _ & _ & NX1). destruct (NX1 EB) as [X1 X2].
+      destruct (Z.eqb_spec (digit_char false i1) 120); [contradiction|].
+      destruct (Z.eqb_spec (digit_char false i1) 88); [contradiction|]. rewrite andb_false_r. reflexivity. }
+  rewrite Hx. cbv iota zeta.
+  assert (R46 : runb B 46 = false) by reflexivity.
+  destruct (Z.leb_spec 0 e) as [He|He].
+  - (* integer text *)
+    rewrite (Fnil eq_refl) in *. unfold body. rewrite app_nil_r.
+    rewrite <- (app_nil_r (map (digit_char false) (i0 :: ids'))), (span_run_digits (i0 :: ids') [] Rids I).
+    cbn [len length Z.of_nat Z.add]. cbv iota.
+    replace ((Z.of_nat (S (length ids')) =? 0)) with false by (symmetry; apply Z.eqb_neq; lia).
+    cbn [orb negb andb Z.eqb]. rewrite app_nil_r in Val. rewrite app_nil_r. 
+    replace (Z.of_nat (S (length ids')) + 0 =? 0) with false by (symmetry; apply Z.eqb_neq; lia). cbn [negb].
+    rewrite Val. rewrite Z.mul_0_r, Z.sub_0_r.
+    assert (Es : (if s <? 0 then -1 else 1) * (Z.abs s * B ^ e) = s * B ^ e) by (destruct (Z.ltb_spec s 0); nia).
+    rewrite Es, (normalize_mul_pow B HB2 s e 0 He), Z.add_0_l.
+    assert (En : normalize B s e = (s, e)).
+    { destruct Hn as [Hm|[-> ->]]; [apply normalize_normal; assumption | reflexivity]. }
+    rewrite En, Hie. f_equal. f_equal. cbn [len length Z.of_nat] in Nd. lia.
+  - (* integer part, point, fraction *)
+    specialize (Flen eq_refl). unfold body.
+    rewrite (span_run_digits (i0 :: ids') (46 :: map (digit_char false) fds) Rids R46).
+    cbn [Z.eqb Pos.eqb]. rewrite <- (app_nil_r (map (digit_char false) fds)), (span_run_digits fds [] Rfds I).
+    assert (Lf : 0 < len fds) by (unfold ex in Flen; lia).
+    replace (len (i0 :: ids') =? 0) with false by (symmetry; apply Z.eqb_neq; rewrite len_cons; pose proof (len_nonneg ids'); lia).
+    replace (len fds =? 0) with false by (symmetry; apply Z.eqb_neq; lia).
+    replace (len (i0 :: ids') + len fds =? 0) with false by (symmetry; apply Z.eqb_neq; rewrite len_cons; pose proof (len_nonneg ids'); lia).
+    cbn [orb negb andb]. rewrite Val, Z.mul_1_l, Z.mul_1_l, Flen.
+    assert (Es : (if s <? 0 then -1 else 1) * Z.abs s = s) by (destruct (Z.ltb_spec s 0); lia).
+    rewrite Es. replace (0 - ex) with e by (unfold ex; lia).
+    assert (En : normalize B s e = (s, e)).
+    { destruct Hn as [Hm|[-> ->]]; [apply normalize_normal; assumption | reflexivity]. }
+    rewrite En, Hie. f_equal. f_equal. lia.
+Qed.
+
+(** ** print -> parse on the as-is models: what Display prints for a normalised float, the parser
+    reads back as the same float *)
+Theorem display_parse_roundtrip_asis m s e : (s mod B <> 0 \/ (s = 0 /\ e = 0)) -> in_isize e = true ->
+  parse_asis B ((if s <? 0 then [45] else []) ++ fmt_round_body_asis B m s e None) = Ok (s, e, printed_digits s e).
+Proof.
+  intros Hn Hie.
+  assert (Hz : s = 0 -> e = 0) by (intros X; destruct Hn as [Y|[_ Y]]; [rewrite X, Z.mod_0_l in Y by lia; contradiction | exact Y]).
+  rewrite (fmt_round_body_asis_spec B HB2 m s e None Hz) by discriminate.
+  apply parse_asis_complete.
+  - unfold radix_valid. apply andb_true_iff. split; apply Z.leb_le; lia.
+  - apply display_parse_roundtrip_spec; assumption.
+Qed.
+
+End RoundTrip.
